@@ -61,9 +61,17 @@ def cmd_explain(args):
     else:
         rules = get_all_rules(match_mode=rule_mode)
 
+    # Supplemental sources are query-only (as in 'tally up'): rules may look rows up
+    # in them, but they do not generate transactions
+    from ..config_loader import load_supplemental_sources
+    supplemental_data = load_supplemental_sources(config, config_dir)
+
     # Parse transactions (quietly)
     all_txns = []
     for source in data_sources:
+        if source.get('_supplemental', False):
+            continue
+
         filepath = os.path.join(config_dir, '..', source['file'])
         filepath = os.path.normpath(filepath)
         if not os.path.exists(filepath):
@@ -87,7 +95,8 @@ def cmd_explain(args):
                 txns = parse_generic_csv(filepath, format_spec, rules,
                                          source_name=source.get('name', 'CSV'),
                                          decimal_separator=source.get('decimal_separator', '.'),
-                                         transforms=transforms)
+                                         transforms=transforms,
+                                         data_sources=supplemental_data)
             else:
                 continue
         except Exception:
